@@ -346,9 +346,11 @@ def jobs_for(prop, tier):
     elif prop == "C16":
         j = j + sched("c16", tier, b, 3)
     elif prop == "C04":
-        j = j + sched("c04", tier, 2, 2) + [{"id": "overshoot", "argv": ["overshoot"]}]
+        j = j + sched("c04", tier, 2, 6) + [{"id": "overshoot", "argv": ["overshoot"]}] + nodebug(sched("c04", tier, 2, 6))
     elif prop in ("C03", "C08", "C10", "C11"):
         j = j + sched("c02", tier, 2, 16) + sched("c02w", tier, 2, 8) + sched("c02x", tier, 2, 4) + gen
+        if prop == "C10":
+            j = j + nodebug(sched("c04", tier, 2, 6))
     elif prop == "C06":
         j = j + sched("c02t", tier, 2, 8)
     return j
@@ -404,6 +406,13 @@ EXPLAIN = {
 
 
 SCHED = ("stateless preemption-bounded depth-first exploration of thread schedules of the REAL sync cache: real OS threads under a baton-passing scheduler that is called at cfg-guarded switch, blocking and yield points; every schedule with at most the stated number of preemptions of every program of the enumerated families is executed (counted under 'schedules' and as transitions; 'states' counts programs for these jobs); each execution's call/return history is checked against the register-with-loss specification and its quiescent end state against structure, counters, drop tracking, final-value and refill clauses; deadlock = no enabled thread, livelock = only spinners / event budget.")
+
+
+def nodebug(joblist):
+    """The same schedule jobs on the engine built without the library's debug assertions
+    (an internal assertion would otherwise end the execution before the property's own
+    clause is evaluated)."""
+    return [dict(j, id="nd-" + j["id"], nodebug=True) for j in joblist]
 
 
 def explain(prop, tier):
